@@ -32,6 +32,8 @@ VARIABLES stack, frames, scope, ntok, nst, done
 
 vars == <<stack, frames, scope, ntok, nst, done>>
 
+TChar == [t |-> "char", w |-> 8]
+CS(ch, code) == [T |-> "Constant", value |-> [T |-> "str", v |-> ch, code |-> code]]
 \* signature: sequence of [name, tdesc, kind]; ints of mixed widths on purpose
 Sig ==
   CASE SigId = 1 -> << [n |-> "a", d |-> TInt(2), k |-> "i"], [n |-> "b", d |-> TInt(4), k |-> "i"], [n |-> "c", d |-> TBool, k |-> "b"] >>
@@ -42,6 +44,10 @@ Sig ==
     [] SigId = 6 -> << [n |-> "t", d |-> TTup(<<TInt(2), TBool, TInt(3)>>), k |-> "t"], [n |-> "a", d |-> TInt(2), k |-> "i"] >>
     [] SigId = 7 -> << [n |-> "a", d |-> TInt(4), k |-> "i"], [n |-> "b", d |-> TInt(2), k |-> "i"], [n |-> "d", d |-> TInt(4), k |-> "i"] >>
     [] SigId = 8 -> << [n |-> "a", d |-> TInt(2), k |-> "i"], [n |-> "b", d |-> TInt(2), k |-> "i"], [n |-> "c", d |-> TBool, k |-> "b"], [n |-> "e", d |-> TBool, k |-> "b"] >>
+    [] SigId = 9 -> << [n |-> "h", d |-> TChar, k |-> "c"], [n |-> "a", d |-> TInt(2), k |-> "i"] >>
+    [] SigId = 10 -> << [n |-> "m", d |-> TList(TList(TBool, 2), 2), k |-> "mb"], [n |-> "a", d |-> TInt(2), k |-> "i"], [n |-> "b", d |-> TInt(2), k |-> "i"] >>
+    [] SigId = 11 -> << [n |-> "t", d |-> TTup(<<TInt(2), TTup(<<TBool, TInt(2)>>)>>), k |-> "tt"], [n |-> "c", d |-> TBool, k |-> "b"] >>
+
 FixI == 2
 FixF == 2
 
@@ -60,7 +66,7 @@ ModConsts == {2, 4, 3}
 InScope == {n \in DOMAIN scope : TRUE}
 
 \* ---------------------------------------------------------------- expression actions
-PushVar == \E n \in DOMAIN scope : scope[n] \in {"b", "i", "f", "li", "lb", "t", "ic"} /\
+PushVar == \E n \in DOMAIN scope : scope[n] \in {"b", "i", "f", "li", "lb", "t", "ic", "c", "mb", "tt"} /\
               Push(E(Name(n), IF scope[n] = "ic" THEN "i" ELSE scope[n], scope[n] # "ic"))
 PushConst == \/ \E v \in IntConsts : Push(E(CI(v), "i", FALSE))
              \/ \E b \in BOOLEAN : Push(E(CB(b), "b", FALSE))
@@ -127,10 +133,29 @@ LeanStep == /\ Len(stack) < MaxStack + 1
             /\ (PushVar \/ LeanBin \/ LeanCmp \/ \E v \in {1} : Push(E(CI(v), "i", FALSE)))
             /\ UNCHANGED <<frames, scope, nst, done>>
 
+CharOps == /\ Len(stack) >= 1 /\ Top(0).k = "c" /\ Top(0).hv
+           /\ \/ \E q \in {<<"a", 97>>, <<"z", 122>>, <<"A", 65>>} : \E op \in {"Eq", "NotEq"} :
+                    Repl(1, E(Cmp(op, Top(0).n, CS(q[1], q[2])), "b", TRUE))
+              \/ Top(0).n.T = "Name" /\ Repl(1, E(Call1("ord", Top(0).n), "c", TRUE))
+              \/ Top(0).n.T = "Name" /\ Repl(1, E(Cmp("Eq", Call1("ord", Top(0).n), CI(97)), "b", TRUE))
+CharIf == /\ Len(stack) >= 2 /\ Top(1).k = "b" /\ Top(1).hv /\ Top(0).k = "c"
+          /\ Repl(2, E(IfE(Top(1).n, Top(0).n, CS("x", 120)), "c", TRUE))
+MatOps == /\ Len(stack) >= 1 /\ Top(0).k = "mb" /\ Top(0).n.T = "Name"
+          /\ \/ \E r \in {0, 1}, cc \in {0, 1} : Repl(1, E(Sub(Sub(Top(0).n, CI(r)), CI(cc)), "b", TRUE))
+             \/ Repl(1, E(Call1("len", Top(0).n), "i", FALSE))
+             \/ \E r \in {0, 1} : Repl(1, E(Sub(Top(0).n, CI(r)), "lb", TRUE))
+MatIdx == /\ Len(stack) >= 3 /\ Top(2).k = "mb" /\ Top(2).n.T = "Name" /\ Top(1).k = "i" /\ Top(1).n.T = "Name" /\ Top(1).hv
+          /\ Top(0).k = "i" /\ Top(0).n.T = "Name" /\ Top(0).hv
+          /\ Repl(3, E(Sub(Sub(Top(2).n, Top(1).n), Top(0).n), "b", TRUE))
+NestSel == /\ Len(stack) >= 1 /\ Top(0).k = "tt" /\ Top(0).n.T = "Name"
+           /\ \/ Repl(1, E(Sub(Top(0).n, CI(0)), "i", TRUE))
+              \/ Repl(1, E(Sub(Sub(Top(0).n, CI(1)), CI(0)), "b", TRUE))
+              \/ Repl(1, E(Sub(Sub(Top(0).n, CI(1)), CI(1)), "i", TRUE))
+
 ExprStep == /\ ~Lean /\ Len(stack) < MaxStack + 1
             /\ \/ PushVar \/ PushConst \/ IntBin \/ IntShift \/ IntMod \/ IntInv \/ IntPow \/ IntCmp \/ BoolCmp
                \/ BoolBin \/ BoolTern \/ BoolNot \/ IfExpr \/ MinMax2 \/ BitSel \/ FixBin \/ FixMul \/ FixConv
-               \/ ListOps \/ ListIdx \/ ConstListIdx \/ TupSel
+               \/ ListOps \/ ListIdx \/ ConstListIdx \/ TupSel \/ CharOps \/ CharIf \/ MatOps \/ MatIdx \/ NestSel
             /\ UNCHANGED <<frames, scope, nst, done>>
 
 \* ---------------------------------------------------------------- statement actions
@@ -138,10 +163,13 @@ ExprStep == /\ ~Lean /\ Len(stack) < MaxStack + 1
 CurFrame == frames[Len(frames)]
 AddStmt(s) == frames' = [frames EXCEPT ![Len(frames)].stmts = Append(@, s)]
 InIf == \E j \in 1..Len(frames) : frames[j].kind \in {"if", "else"}
-Scalar(k) == k \in {"b", "i", "f"}
+Scalar(k) == k \in {"b", "i", "f", "c"}
 NewNames == {"u", "v", "w"}
 NameSeq == <<"u", "v", "w">>
 HasVarExpr == Len(stack) = 1 /\ Top(0).hv
+
+\* loop variables: i for the outer loop, j for a loop nested in it
+LoopVar == IF "i" \in DOMAIN scope THEN "j" ELSE "i"
 
 \* x = e   (new variable only outside an if; inside an if only existing variables of the same kind)
 StAssign == /\ Len(stack) = 1 /\ Scalar(Top(0).k) /\ nst < MaxStmts
@@ -169,7 +197,8 @@ StSwap == /\ Len(stack) = 2 /\ Top(0).k = Top(1).k /\ Scalar(Top(0).k) /\ ~InIf 
                    value |-> [T |-> "Tuple", elts |-> <<Name("v"), Bin(IF Top(0).k = "b" THEN "BitXor" ELSE "Add", Name("u"), Name("v"))>>]] >>]
           /\ scope' = [x \in DOMAIN scope \cup {"u", "v"} |-> IF x \in {"u", "v"} THEN Top(0).k ELSE scope[x]]
           /\ stack' = <<>> /\ nst' = nst + 2 /\ UNCHANGED done
-StIfOpen == /\ Len(stack) = 1 /\ Top(0).k = "b" /\ Top(0).hv /\ ~InIf /\ nst < MaxStmts
+StIfOpen == /\ Len(stack) = 1 /\ Top(0).k = "b" /\ Top(0).hv /\ nst < MaxStmts
+            /\ (~InIf \/ (CurFrame.kind = "else" /\ Len(CurFrame.stmts) = 0 /\ Len({j \in 1..Len(frames) : frames[j].kind \in {"if", "else"}}) = 1))
             /\ \E n \in DOMAIN scope : n \in NewNames                      \* something to assign to
             /\ frames' = Append(frames, [kind |-> "if", test |-> Top(0).n, stmts |-> <<>>, body |-> <<>>])
             /\ stack' = <<>> /\ nst' = nst + 1 /\ UNCHANGED <<scope, done>>
@@ -182,23 +211,24 @@ StIfClose == /\ stack = <<>> /\ CurFrame.kind \in {"if", "else"} /\ Len(CurFrame
                             ELSE [T |-> "If", test |-> f.test, body |-> f.body, orelse |-> f.stmts]
                 IN frames' = [SubSeq(frames, 1, Len(frames) - 1) EXCEPT ![Len(frames) - 1].stmts = Append(@, node)]
              /\ UNCHANGED <<stack, scope, nst, done>>
-StForOpen == /\ stack = <<>> /\ Len(frames) <= 2 /\ nst < MaxStmts /\ "i" \notin DOMAIN scope
+StForOpen == /\ stack = <<>> /\ Len(frames) <= 3 /\ nst < MaxStmts
+             /\ LoopVar \notin DOMAIN scope
              /\ \E n \in DOMAIN scope : n \in NewNames
              /\ \/ \E K \in {2, 3} :
-                     frames' = Append(frames, [kind |-> "for", iter |-> [T |-> "Call", func |-> Name("range"), args |-> <<CI(K)>>, keywords |-> <<>>], stmts |-> <<>>])
-                     /\ scope' = [x \in DOMAIN scope \cup {"i"} |-> IF x = "i" THEN "ic" ELSE scope[x]]
-                \/ \E l \in DOMAIN scope : scope[l] \in {"li", "lb"} /\
-                     frames' = Append(frames, [kind |-> "for", iter |-> Name(l), stmts |-> <<>>])
-                     /\ scope' = [x \in DOMAIN scope \cup {"i"} |-> IF x = "i" THEN (IF scope[l] = "li" THEN "i" ELSE "b") ELSE scope[x]]
+                     frames' = Append(frames, [kind |-> "for", var |-> LoopVar, iter |-> [T |-> "Call", func |-> Name("range"), args |-> <<CI(K)>>, keywords |-> <<>>], stmts |-> <<>>])
+                     /\ scope' = [x \in DOMAIN scope \cup {LoopVar} |-> IF x = LoopVar THEN "ic" ELSE scope[x]]
+                \/ \E l \in DOMAIN scope : scope[l] \in {"li", "lb", "mb"} /\
+                     frames' = Append(frames, [kind |-> "for", var |-> LoopVar, iter |-> Name(l), stmts |-> <<>>])
+                     /\ scope' = [x \in DOMAIN scope \cup {LoopVar} |-> IF x = LoopVar THEN (IF scope[l] = "li" THEN "i" ELSE IF scope[l] = "lb" THEN "b" ELSE "lb") ELSE scope[x]]
              /\ nst' = nst + 1 /\ UNCHANGED <<stack, done>>
 StForClose == /\ stack = <<>> /\ CurFrame.kind = "for" /\ Len(CurFrame.stmts) > 0
               /\ LET f == CurFrame
-                     node == [T |-> "For", target |-> Name("i"), iter |-> f.iter, body |-> f.stmts, orelse |-> <<>>]
+                     node == [T |-> "For", target |-> Name(f.var), iter |-> f.iter, body |-> f.stmts, orelse |-> <<>>]
                  IN frames' = [SubSeq(frames, 1, Len(frames) - 1) EXCEPT ![Len(frames) - 1].stmts = Append(@, node)]
-              /\ scope' = [x \in DOMAIN scope \ {"i"} |-> scope[x]]
+              /\ scope' = [x \in DOMAIN scope \ {CurFrame.var} |-> scope[x]]
               /\ UNCHANGED <<stack, nst, done>>
 
-RetDescs(k) == IF k = "b" THEN {TBool} ELSE IF k = "f" THEN {TFix(FixI, FixF)} ELSE {TInt(2), TInt(4), TInt(8), TInt(12)}
+RetDescs(k) == IF k = "b" THEN {TBool} ELSE IF k = "c" THEN {TChar} ELSE IF k = "f" THEN {TFix(FixI, FixF)} ELSE {TInt(2), TInt(4), TInt(8), TInt(12)}
 StReturn == /\ Len(stack) = 1 /\ Scalar(Top(0).k) /\ Len(frames) = 1 /\ (Top(0).hv \/ nst > 0)
             /\ \E rd \in RetDescs(Top(0).k) :
                  done' = [T |-> "FunctionDef", name |-> "f",
